@@ -23,6 +23,8 @@ EXTENDS Recon, Json
 CONSTANTS LeafClasses,   \* subset of AllLeafClasses
           NameClasses,   \* subset of AllNameClasses
           MaxNodes, MaxDepth, MaxAttrs, MaxItems,
+          MinNodes,      \* the root is only finished once it has this many nodes (1 = no restriction; > 1 steers
+                         \* simulation walks towards large documents)
           TypedArity,    \* symbols enumerated per typed case
           TypedSyms      \* symbol values 0..TypedSyms-1
 
@@ -69,6 +71,7 @@ Deliver(stk, v) == IF stk = <<>> THEN <<stk, v>> ELSE <<SetTop(stk, Accept(Top(s
 
 WriteLeaf(c) ==
     /\ Expecting(stack, doc)
+    /\ stack # <<>> \/ MinNodes <= 1
     /\ LET d == Deliver(stack, Leaf(c)) IN stack' = d[1] /\ doc' = d[2]
     /\ size' = size + 1
     /\ lastAct' = [k |-> "leaf", c |-> c]
@@ -120,6 +123,7 @@ Done ==
     /\ stack # <<>>
     /\ LET f == Top(stack) IN
        /\ ~f.hdr /\ f.exp = "open" /\ Len(f.items) = f.decl
+       /\ Len(stack) > 1 \/ size >= MinNodes
        /\ LET d == Deliver(Pop(stack), Rec(f.attrs, f.items)) IN stack' = d[1] /\ doc' = d[2]
     /\ UNCHANGED size
     /\ lastAct' = [k |-> "done"]
